@@ -177,6 +177,9 @@ type Run struct {
 
 	// OwnRange: the run wants to own the visiting order of UnsafeGoMap.Iterator's range (and a yield point per entry)
 	OwnRange bool
+	// MuteMemo: the memo cells of package lazy / fp.Memoize are no scheduling points in this run (a scenario that reaches
+	// them on every hash of a key and has nothing to learn from interleavings there)
+	MuteMemo bool
 }
 
 // CaseTrace makes NoteCase print; the supervisor sets VERIF_CASE_TRACE for the run that
@@ -228,6 +231,9 @@ func hook(op string) {
 	}
 	if op == "gomap.range" && !r.OwnRange {
 		return // the per-entry yield of UnsafeGoMap.Iterator is a scheduling point only for runs that own the range
+	}
+	if r.MuteMemo && (op == "lazy.Memoize" || op == "fp.Memoize") {
+		return
 	}
 	t := r.currentTask()
 	if t == nil || t.quiet > 0 {
